@@ -494,7 +494,7 @@ def check_case(case, rec=None):
             return Mismatch("raised", "RecursionError")
 
 
-N = {"quick": 1500, "thorough": 50000}
+N = {"quick": 3000, "thorough": 50000}
 
 
 def shard_plan(tier):
